@@ -41,11 +41,18 @@ struct Prepared {
 
 fn prepare(plan: &Plan) -> Option<Prepared> {
     let mut w = build(plan);
+    // few remembered headers: the request for the heavier branch then starts at a header of the abandoned one, the honest
+    // answer carries a reorg section and the fork switch rolls back (with many, the listed C04 finding gets in the way)
+    w.last_n = 6;
     w.exec(&Op::Init);
-    let h1 = plan.fork_at + 2;
+    let h1 = plan.fork_at + 4;
     w.exec(&Op::Prove { on_fork: false, height: h1 });
     w.exec(&Op::SetScripts { cmd: 0, list: vec![(0, true, 0), (1, true, 0)] });
     w.exec(&Op::Filters { batch: 8 });
+    // further batches up to the fork point, then one just above it: the fork switch will have a pending record to drop
+    let m = w.storage.get_min_filtered_block_number();
+    if m < plan.fork_at { w.exec(&Op::Filters { batch: plan.fork_at - m }); }
+    w.exec(&Op::Filters { batch: 2 });
     // prove the matched blocks of the first record and deliver all but the last body
     let inbox = std::mem::take(&mut w.inbox);
     let mut get_blocks: Vec<packed::Byte32> = Vec::new();
@@ -66,7 +73,7 @@ fn prepare(plan: &Plan) -> Option<Prepared> {
     }
     // the next filter batch
     let start = w.storage.get_min_filtered_block_number() + 1;
-    let filters = if start + 4 <= w.height { Some(filters_message(super::c08::serve_block_filters_upto(&w.main, start, start + 4))) } else { None };
+    let filters = if start <= w.height { Some(filters_message(super::c08::serve_block_filters_upto(&w.main, start, (start + 4).min(w.height)))) } else { None };
     // a heavier branch announced, the proof for it ready to be delivered
     let fork_h = (plan.len + 1).min(w.fork.tip());
     let peer = w.peer;
